@@ -422,9 +422,42 @@ def make_expander(ctx: Context, T):
         cache[name] = (g.pos_params, t)
         return cache[name]
 
+    acache: dict = {}
+
+    def cached_attr(name: str):
+        """`self.k` / `self.x` hold a value computed once from other attributes (`self.k = self._calculate_k()` in __init__,
+        `self.x = self._calculate_client_password_x()` in set_salt): the formula they abbreviate, when exactly one statement
+        of the two classes writes the attribute and what it writes depends on self only.  A formula reads the same whether it
+        uses the cached attribute or computes the value in place (WHEN the cache is filled is checked where it is filled)."""
+        if name in acache:
+            return acache[name]
+        acache[name] = None
+        found = []
+        for cn in (CLI, SRP):
+            c = ctx.prog.classes.get(cn)
+            for g in (c.methods.values() if c is not None else ()):
+                if isinstance(g.node, ast.Lambda):
+                    continue
+                for x in walk_own(g.node):
+                    if isinstance(x, ast.Assign) and any(_u(tg) == f"self.{name}" for tg in x.targets):
+                        found.append((g, x))
+        if len(found) == 1:
+            g, x = found[0]
+            cfg = ctx.cfg(g.qualname)
+            nd = next((n for n in cfg.nodes if n.ast is x), None)
+            if nd is not None:
+                t = _norm(strip_sites(T.of(cfg, nd, x.value)))
+                if not has_unknown(t) and not contains(t, lambda s_: isinstance(s_, tuple) and s_[:1] == ("param",) and s_ != ("param", "self")):
+                    acache[name] = t
+        return acache[name]
+
     def expand(t, depth=0):
         if not isinstance(t, tuple) or not t or t[0] == "const":
             return t
+        if len(t) == 3 and t[0] == "attr" and t[1] == ("param", "self") and t[2] in ("k", "x") and depth < 8:
+            ca = cached_attr(t[2])
+            if ca is not None:
+                return expand(ca, depth + 1)
         t = tuple(expand(x, depth) for x in t)
         if len(t) >= 4 and t[0] == "call" and isinstance(t[1], tuple) and len(t[1]) == 3 and t[1][0] == "attr" and t[1][1] == ("param", "self") and not t[3] and depth < 8:
             fm = formula(t[1][2])
@@ -463,14 +496,18 @@ def _t2(ctx: Context) -> None:
     expect(f"{SRP}._calculate_u", big(meth("digest", S("A_b"), S("B_b"))), "u = int(H(A_b | B_b))")
     expect(f"{SRP}._calculate_client_password_x", big(meth("digest", S("salt_b"), meth("digest", user_pass))), "x = int(H(salt_b | H(username ':' password)))")
     u = meth("_calculate_u")
-    v = call(("glob", "pow"), S("g"), S("x"), S("n"))
-    s_term = call(("glob", "pow"), ("binop", "Sub", S("B"), ("binop", "Mult", S("k"), v)), ("add", (S("a"), ("binop", "Mult", u, S("x")))), S("n"))
-    expect(f"{CLI}.get_shared_secret", s_term, "S = pow(B - k*pow(g, x, N), a + u*x, N)")
+    # (k and x in their computed form: a cached `self.k` / `self.x` in the code is expanded to the same by the expander)
+    x_t, k_t0 = meth("_calculate_client_password_x"), meth("_calculate_k")
+    v = call(("glob", "pow"), S("g"), x_t, S("n"))
+    s_term = call(("glob", "pow"), ("binop", "Sub", S("B"), ("binop", "Mult", k_t0, v)), ("add", (S("a"), ("binop", "Mult", u, x_t))), S("n"))
+    # the base may be reduced mod N first: pow(b, e, N) == pow(b % N, e, N) for the non-negative exponent a + u*x
+    s_term_red = call(("glob", "pow"), ("binop", "Mod", ("binop", "Sub", S("B"), ("binop", "Mult", k_t0, v)), S("n")), ("add", (S("a"), ("binop", "Mult", u, x_t))), S("n"))
+    expect(f"{CLI}.get_shared_secret", [s_term, s_term_red], "S = pow(B - k*pow(g, x, N), a + u*x, N)")
     expect(f"{SRP}.get_shared_secret_bytes", [call(PAD, call(TBA2, meth("get_shared_secret")), KLEN), call(PAD, call(TBA, meth("get_shared_secret")), KLEN)], "S bytes = PAD384(S)")
     # K = H(PAD(S)): the value cached and returned
     f = ctx.func(f"{SRP}.get_session_key_bytes")
     cfg = ctx.cfg(f.qualname)
-    ws = [(n, strip_sites(T.of(cfg, n, n.ast.value))) for n in cfg.nodes if n.kind == "stmt" and isinstance(n.ast, ast.Assign) and _u(n.ast.targets[0]) == "self._session_key"]
+    ws = [(n, strip_sites(T.of(cfg, n, n.ast.value))) for n in cfg.nodes if n.kind == "stmt" and isinstance(n.ast, ast.Assign) and any(_u(tg_) == "self._session_key" for tg_ in n.ast.targets)]
     rets = [strip_sites(T.of(cfg, n, n.exprs[0])) for n in cfg.nodes if n.kind == "return" and n.exprs]
     k_t = meth("digest", meth("get_shared_secret_bytes"))
     def alts(t):
@@ -499,14 +536,28 @@ def _t2(ctx: Context) -> None:
     asg = {}
     for n in icfg.nodes:
         if n.kind == "stmt" and isinstance(n.ast, ast.Assign) and isinstance(n.ast.targets[0], ast.Attribute) and _u(n.ast.targets[0].value) == "self":
-            asg[n.ast.targets[0].attr] = _norm(strip_sites(T.of(icfg, n, n.ast.value)))
+            v_ = _norm(strip_sites(T.of(icfg, n, n.ast.value)))
+            a_ = n.ast.targets[0].attr
+            # several stores of one attribute (a conditional assignment): every value it can be given
+            asg[a_] = v_ if a_ not in asg or asg[a_] == v_ else ("phi", (asg[a_][1] if asg[a_][0] == "phi" else (asg[a_],)) + (v_,))
     rows = {
         "a": meth("generate_private_key"),
         "A": call(("glob", "pow"), S("g"), S("a"), S("n")),
         "A_b": call(PAD, call(TBA, S("A")), KLEN),
         "k": meth("_calculate_k"),
     }
+    def _unpassed(t_):
+        """alternatives of t_ without a constructor parameter that has a default and that no caller in the package passes"""
+        alts_ = [x_ for y_ in t_[1] for x_ in (_unpassed(y_)[1] if _unpassed(y_)[0] == "phi" else [_unpassed(y_)])] if t_[0] == "phi" else [t_]
+        keep = [x_ for x_ in alts_ if not (x_[0] == "param" and ctx.param_never_passed(init, x_[1]))]
+        keep = keep or alts_
+        return keep[0] if len(keep) == 1 else ("phi", tuple(keep))
+
+    asg = {k_: _unpassed(v_) for k_, v_ in asg.items()}
     for a, w in rows.items():
+        if a == "k" and a not in asg and not any(isinstance(x, ast.Attribute) and x.attr == "k" and _u(x.value) == "self" for cn in (CLI, SRP)
+                                                    for g in ctx.prog.cls(cn).methods.values() for x in ast.walk(g.node)):
+            continue  # k is not cached at all: every formula computes it in place (and is compared in that form)
         ck.check("C02.T2", a in asg and fexpand(asg[a]) == fexpand(_norm(w)), f"SrpClient.{a} = {show(w, 60)}", f"{ctx.fkey(init)}:{a}", f"SrpClient.__init__ sets {a} = {show(asg.get(a, ('unknown', 'missing')), 120)}", init.loc())
     binit = ctx.func(f"{SRP}.__init__")
     bcfg = ctx.cfg(binit.qualname)
@@ -533,6 +584,8 @@ def _t2(ctx: Context) -> None:
     okb = len(sb) == 1 and sb[0][1] == call(PAD, call(TBA, S("salt")), ("const", 16))
     xs = [(n, strip_sites(T.of(scfg, n, n.ast.value))) for n in scfg.nodes if n.kind == "stmt" and isinstance(n.ast, ast.Assign) and _u(n.ast.targets[0]) == "self.x"]
     okx = len(xs) == 1 and xs[0][1] == meth("_calculate_client_password_x") and okb and scfg.find_path(scfg.entry.id, xs[0][0].id, avoid_nodes=[sb[0][0].id]) is None
+    if not xs and not any(isinstance(x, ast.Attribute) and x.attr == "x" and _u(x.value) == "self" for cn in (CLI, SRP) for g in ctx.prog.cls(cn).methods.values() for x in ast.walk(g.node)):
+        okx = True  # x is not cached: the formulas that need it compute it from salt_b at the time of use
     ck.check("C02.T2", okw and okb and okx, "set_salt: salt int from the bytes, salt_b = PAD16(salt), x computed after salt_b is set", f"{ctx.fkey(ss)}:shape",
              f"set_salt: salt={[show(w[1], 50) for w in salt_w]} salt_b={[show(w[1], 70) for w in sb]} x={[show(w[1], 50) for w in xs]}", ss.loc())
     sk = ctx.func(f"{CLI}.set_server_public_key")
